@@ -1,6 +1,8 @@
 """C12 -- independence of packaging and of homogeneous rescaling (T1, H1)."""
 from ..rules import dtype_rules as D
 from ..rules import hyp_rules as H
+from ..rules import sibling_rules as SI
+from ..rules import degree_rules as DG
 from ..rules.common import u1
 
 CORE = D.CORE_REL
@@ -24,6 +26,8 @@ def run(ctx):
     ctx.do(H.rule_h1)
     ctx.do(H.rule_h2)
     ctx.do(D.rule_t2)
+    ctx.do(SI.rule_of1)
+    ctx.do(DG.rule_hd1)
     ctx.do(u1, ENTRIES, min_functions=15)
     ctx.r.assume("numerical equality across packagings and scale invariance "
                  "of arbitrary formulas are not decided")
